@@ -75,7 +75,7 @@ package collection
 //@   ensures  forall(k.(any), smHas(tw.timers, k) == (k == task.key || old(smHas(tw.timers, k))))
 //@   ensures  pe(tw, task.key) != nil && allocated(pe(tw, task.key)) && pe(tw, task.key).item == task && pe(tw, task.key).pos == pos
 //@   ensures  forall(k.(any), implies(k != task.key && smHas(tw.timers, k), pe(tw, k) == old(pe(tw, k))))
-//@   ensures  forall(q.(*positionEntry), implies(old(allocated(q)) && q != old(pe(tw, task.key)), q.item == old(q.item) && q.pos == old(q.pos)))
+//@   ensures  forall(q.(*positionEntry), implies(old(allocated(q)) && !(old(smHas(tw.timers, task.key)) && q == old(pe(tw, task.key))), q.item == old(q.item) && q.pos == old(q.pos)))
 //@   modifies smH[tw.timers], smV[tw.timers], positionEntry.item, positionEntry.pos
 //@   allocates
 
@@ -103,9 +103,10 @@ package collection
 //@   ensures  implies(smHas(tw.timers, task.key) && pe(tw, task.key).item != old(pe(tw, task.key).item), old(pe(tw, task.key).item).removed && fresh(pe(tw, task.key).item))
 //@   ensures  forall(x.(*timingEntry), implies(old(allocated(x)) && !(old(smHas(tw.timers, task.key)) && x == old(pe(tw, task.key).item)),
 //@              x.removed == old(x.removed) && x.circle == old(x.circle) && x.diff == old(x.diff) && listOf[x] == old(listOf[x]) && x.value == old(x.value)))
+//@   ensures  forall(x.(*timingEntry), implies(old(allocated(x)), x.key == old(x.key) && x.delay == old(x.delay)))
 //@   ensures  forall(k.(any), implies(k != task.key && smHas(tw.timers, k), pe(tw, k) == old(pe(tw, k)) && pe(tw, k).item == old(pe(tw, k).item) && pe(tw, k).pos == old(pe(tw, k).pos)))
 //@   modifies smH[tw.timers], smV[tw.timers], positionEntry.item, positionEntry.pos,
-//@            timingEntry.removed, timingEntry.circle, timingEntry.diff, timingEntry.value, timingEntry.delay, timingEntry.key, listOf
+//@            timingEntry.removed, timingEntry.circle, timingEntry.diff, timingEntry.value, timingEntry.baseEntry, listOf
 //@   allocates
 
 //@ func (tw *TimingWheel) setTask
@@ -122,5 +123,5 @@ package collection
 //@   ensures  forall(x.(*timingEntry), implies(old(allocated(x)) && x != task && !(old(smHas(tw.timers, task.key)) && x == old(pe(tw, task.key).item)),
 //@              x.removed == old(x.removed) && x.circle == old(x.circle) && x.diff == old(x.diff) && listOf[x] == old(listOf[x]) && x.value == old(x.value)))
 //@   modifies smH[tw.timers], smV[tw.timers], positionEntry.item, positionEntry.pos,
-//@            timingEntry.removed, timingEntry.circle, timingEntry.diff, timingEntry.value, timingEntry.delay, timingEntry.key, listOf
+//@            timingEntry.removed, timingEntry.circle, timingEntry.diff, timingEntry.value, timingEntry.baseEntry, listOf
 //@   allocates
